@@ -568,6 +568,9 @@ class XsdElement(XsdComponent, ParticleMixin,
 
     def check_dynamic_context(self, elem: ElementType, validation: str,
                               context: ValidationContext) -> None:
+        if self.schema.meta_schema is None:
+            return  # an element of a meta-schema: its maps can't be extended by instance hints
+
         for ns, url in iter_schema_location_hints(elem):
             if self.maps.get_schema(ns, url, context.source.base_url) is not None:
                 continue
@@ -1439,6 +1442,9 @@ class Xsd11Element(XsdElement):
 
     def check_dynamic_context(self, elem: ElementType, validation: str,
                               context: ValidationContext) -> None:
+        if self.schema.meta_schema is None:
+            return  # an element of a meta-schema: its maps can't be extended by instance hints
+
         for ns, url in iter_schema_location_hints(elem):
             if self.maps.get_schema(ns, url, context.source.base_url) is not None:
                 continue
